@@ -52,7 +52,7 @@ EXHAUSTIVE_SCOPE = {
            "independently present (16 states per pair), and on 4 switches with 5 states per pair {none, one-way, link, one-way + "
            "link, 2 links}; topo: every graph on 2 switches with 16 states per pair and on 3 switches with 7 states per pair "
            "{none, one-way either direction, link, one-way + link either order, 2 links}, run to convergence through the real "
-           "controller and switches",
+           "controller and switches; every graph on 3 switches with 3 states per pair x each switch disconnecting and reconnecting",
   "thorough": "static: additionally 5 switches with 3 states per pair {none, link, one-way + link} and 4 switches with 7 states; "
               "topo: every graph on <= 3 switches with 16 states per pair and on 4 switches with 5 states per pair",
 }
@@ -245,19 +245,42 @@ def case_topo(c, out):
     order_bad = []
 
     stale = [0]
+    last_rx = {}                    # (dpid, port) -> virtual time a frame last entered that port
+    event_bad = []
+    TIMEOUT = float(disc._link_timeout)
 
     def on_link(e):
       k = tuple(e.link)
+      now = w.clock.now
       if not e.added and e.link in disc.adjacency:
         stale[0] += 1
       last = evs.get(k)
       if (last is None and not e.added) or (last is not None and last == bool(e.added)):
-        order_bad.append((k, last, bool(e.added), w.clock.now))
+        order_bad.append((k, last, bool(e.added), now))
       evs[k] = bool(e.added)
+      if e.added:
+        # an announced link must be a cable over which a probe can travel right now
+        if k not in live_cables():
+          event_bad.append(("link-added-not-physical", k, now, "no live cable %r" % (k,), {}))
+      else:
+        # a withdrawal needs a reason: an end switch is gone, or no probe arrived over it for the timeout
+        a, ap, b, bp = k
+        gone = [d for d in (a, b) if d not in connected]
+        seen = last_rx.get((b, bp))
+        if not gone and seen is not None and not (seen + TIMEOUT < now):
+          event_bad.append(("link-removed-unjustified", k, now,
+                            "both switches are connected and a probe arrived over it %.3f s ago (timeout %g s)" % (
+                                now - seen, TIMEOUT),
+                            {"during": {"disconnect": "switch-disconnect", "flap": "switch-disconnect", "connect": "switch-connect",
+                                        "adv": "time-passing", "quiesce": "time-passing"}.get(st_.get("op"), "other")}))
     disc.addListenerByName("LinkEvent", on_link)
     net = w.net
     net.record = False
     net.reset_budget(10 ** 9)      # probes are never re-forwarded: no storm to guard against
+
+    def on_deliver(dpid, port, data):
+      last_rx[(dpid, port)] = w.clock.now
+    net.on_deliver = on_deliver
     nports = {}
     for (a, ap, b, bp, f, r) in cables:
       nports[a] = max(nports.get(a, 0), ap)
@@ -428,18 +451,52 @@ def case_topo(c, out):
         sync_dead()
         w.settle()
 
+    def adj_now():
+      return set(tuple(l) for l in disc.adjacency)
+
+    def immediate(kind, before, d=None):
+      """Right after an op, before any virtual time passes."""
+      after = adj_now()
+      if kind == "disconnect":
+        want = set(k for k in before if k[0] != d and k[2] != d)
+        if after != want:
+          out.fail("adjacency-after-disconnect",
+                   "t=%.3f switch %d disconnected: adjacency was %r, is %r, expected %r (wrongly withdrawn %r, still listed %r)" % (
+                       w.clock.now, d, sorted(before), sorted(after), sorted(want), sorted(want - after), sorted(after - want)),
+                   shape=("withdrawn-too-much" if want - after else "") + ("not-withdrawn" if after - want else ""))
+      else:
+        lost = before - after
+        new_ = after - before
+        notphys = sorted(k for k in new_ if k not in live_cables())
+        if lost or notphys:
+          out.fail("adjacency-after-" + kind,
+                   "t=%.3f after %s: adjacency was %r, is %r (lost %r, added without a live cable %r)" % (
+                       w.clock.now, kind, sorted(before), sorted(after), sorted(lost), notphys),
+                   shape=("lost" if lost else "") + ("added" if notphys else ""))
+
     for op in c["ops"]:
       o = op["o"]
+      st_["op"] = o
+      before_op = adj_now()
       if o == "connect":
-        do_connect(dpids[op["s"] % n])
+        d = dpids[op["s"] % n]
+        do_connect(d)
+        immediate("connect", before_op)
       elif o == "disconnect":
-        do_disconnect(dpids[op["s"] % n])
+        d = dpids[op["s"] % n]
+        was = d in connected
+        do_disconnect(d)
+        if was:
+          immediate("disconnect", before_op, d)
       elif o == "flap":            # the control connection drops and comes back dt/8 s later
         d = dpids[op["s"] % n]
         if d in connected:
           do_disconnect(d)
+          immediate("disconnect", before_op, d)
           w.advance(op["dt"] / 8.0)
+          b2 = adj_now()
           do_connect(d)
+          immediate("connect", b2)
       elif o in ("cut", "restore"):
         present = [dl for dl in dirs if dl is not None]
         if present:
@@ -474,6 +531,12 @@ def case_topo(c, out):
         judge()
       else:
         raise HarnessError("bad op %r" % (op,))
+      if o in ("cut", "restore", "cutboth", "restoreboth", "silence", "unsilence"):
+        w.settle()
+        immediate(o, before_op)
+      for (clause, k, t, msg, extra) in event_bad:
+        out.fail(clause, "t=%.3f link %r %s: %s" % (t, k, "announced" if clause.startswith("link-added") else "withdrawn", msg), **extra)
+      del event_bad[:]
       for (k, last, added, t) in order_bad:
         out.fail("link-event-order", "t=%.3f link %r announced %s after %s" % (
             t, k, "added" if added else "removed",
@@ -570,6 +633,17 @@ def enum_topo(tier):
       if not cables:
         continue
       yield {"k": "topo", "n": n, "cables": cables, "extra": 1, "opts": {}, "ops": _converge_ops(n)}
+
+
+def enum_disconnect(tier):
+  """Every graph on 3 switches (3 or 5 states per pair): converge, one switch disconnects, judge at once and after quiescence."""
+  states = _PAIR3 if tier == "quick" else _PAIR5
+  for cables in _graphs(3, states):
+    if not cables:
+      continue
+    for s_ in range(3):
+      yield {"k": "topo", "n": 3, "cables": cables, "extra": 1, "opts": {},
+             "ops": _converge_ops(3) + [{"o": "disconnect", "s": s_}, {"o": "quiesce"}, {"o": "connect", "s": s_}, {"o": "quiesce"}]}
 
 
 _B64 = [0, 1, 2, 0xff, 0x100, 0xffff, 0x10000, 0xffffffff, 0x100000000, (1 << 48) - 1, 1 << 48, (1 << 48) + 1,
@@ -692,12 +766,14 @@ def plan(tier):
     return [Enum("static-graphs", lambda: enum_static("quick"), shards=16),
             Enum("probe-boundaries", lambda: enum_probe("quick"), shards=8),
             Enum("converge-small-graphs", lambda: enum_topo("quick"), shards=16),
+            Enum("disconnect-each-switch", lambda: enum_disconnect("quick"), shards=16),
             Hyp("probe-random", _probe, examples=400, shards=4),
             Hyp("static-random", lambda: _static(8), examples=2000, shards=4),
             Hyp("histories", lambda: _topo(5, 8), examples=1440, shards=16)]
   return [Enum("static-graphs", lambda: enum_static("thorough"), shards=16),
           Enum("probe-boundaries", lambda: enum_probe("thorough"), shards=8),
           Enum("converge-small-graphs", lambda: enum_topo("thorough"), shards=16),
+          Enum("disconnect-each-switch", lambda: enum_disconnect("thorough"), shards=16),
           Hyp("probe-random", _probe, examples=6000, shards=8),
           Hyp("static-random", lambda: _static(12), examples=40000, shards=8),
           Hyp("histories", lambda: _topo(12, 20), examples=12000, shards=16)]
